@@ -747,6 +747,50 @@ def check_record_and_go_on(prog, run, funcs, scope, floor):
     r.instance("%d loops scanned" % n, nontrivial=False)
 
 
+def check_lazy_values(prog, run, classes, scope, floor):
+    r = run.rule("Z14", "anchored modules (%s): a lazily computed attribute (`if self._c is None: self._c = E`) is assigned again by every "
+                        "method that assigns something E is computed from (attributes E reads, directly or through a property of the "
+                        "class): the setter of the source resets what was derived from it, or the derived value keeps describing the "
+                        "members the object had before" % scope, floor)
+    for c in classes:
+        def self_attrs(node, ctx):
+            return {x.attr for x in ast.walk(node) if isinstance(x, ast.Attribute) and isinstance(x.ctx, ctx) and isinstance(x.value, ast.Name) and x.value.id == "self"}
+
+        def is_property(m):
+            return any(_txt(d) in ("property", "lazy", "cached_property") for d in getattr(m.node, "decorator_list", []))
+        caches = {}
+        for m in c.methods.values():
+            if isinstance(m.node, ast.Lambda):
+                continue
+            for n in own_walk(m.node):
+                if isinstance(n, ast.If) and isinstance(n.test, ast.Compare) and len(n.test.ops) == 1 and isinstance(n.test.ops[0], ast.Is) \
+                        and isinstance(n.test.comparators[0], ast.Constant) and n.test.comparators[0].value is None \
+                        and isinstance(n.test.left, ast.Attribute) and isinstance(n.test.left.value, ast.Name) and n.test.left.value.id == "self":
+                    cname = n.test.left.attr
+                    for st in n.body:
+                        if isinstance(st, ast.Assign) and any(isinstance(t, ast.Attribute) and t.attr == cname and isinstance(t.value, ast.Name)
+                                                              and t.value.id == "self" for t in st.targets):
+                            deps = set(self_attrs(st.value, ast.Load))
+                            for _ in range(2):
+                                for a in sorted(deps):
+                                    pm = c.find_method(a)
+                                    if pm is not None and is_property(pm) and not isinstance(pm.node, ast.Lambda):
+                                        deps |= self_attrs(pm.node, ast.Load)
+                            deps.discard(cname)
+                            caches[cname] = (m, deps)
+        for cname, (m, deps) in sorted(caches.items()):
+            r.instance("%s.%s computed from %s" % (c.name, cname, sorted(deps)))
+            for w in c.methods.values():
+                if w.name == "__init__" or isinstance(w.node, ast.Lambda) or w is m:
+                    continue
+                stored = self_attrs(w.node, ast.Store)
+                hit = sorted(stored & deps)
+                if hit and cname not in stored:
+                    run.report(r, "%s:%s.%s:derived-value-not-reset(%s)" % (c.module.name, c.name, w.name, cname), w.where(),
+                               "%s.%s assigns %s, which %s.%s (in %s) is computed from, without assigning self.%s again: the remembered "
+                               "value keeps describing the old %s" % (c.name, w.name, ", ".join("self." + h for h in hit), "self", cname, m.name, cname, hit[0]))
+
+
 def run_bundle(prog, run, files, floors=None):
     mods = _mods(files)
     funcs = [f for f in prog.all_funcs() if f.module.name in mods]
@@ -760,3 +804,4 @@ def run_bundle(prog, run, files, floors=None):
     check_search_loops(prog, run, funcs, scope, floors.get("Z11", 0))
     check_char_class_tests(prog, run, funcs, scope, floors.get("Z12", 0))
     check_record_and_go_on(prog, run, funcs, scope, floors.get("Z13", 0))
+    check_lazy_values(prog, run, classes, scope, floors.get("Z14", 0))
